@@ -177,6 +177,17 @@ c("with_no_as", "with lock:\n    x = 1\n")
 c("try_in_loop_continue", "for i in x:\n    try:\n        f(i)\n    except ValueError:\n        continue\n    finally:\n        g(i)\n")
 
 
+c("import_in_def_then_dedented_string", 'def load(path):\n    import json\n    template = """\nkey: value\n"""\n    return json.dumps(template), path\nprint(load(1))\n')
+c("import_in_if_then_dedented_call", "if cond:\n    import os\n    value = call(\n  1,\n 2,\n)\n    print(value, os)\n")
+c("dedented_string_in_def", 'def f():\n    x = """\nzero col\n  two col\n"""\n    y = 1\n    return x, y\n')
+c("dedented_string_in_class_method", 'class A:\n    def m(self):\n        import re\n        pat = r"""\n^a\n"""\n        return re.compile(pat)\n')
+c("imports_in_nested_blocks", "def f(c):\n    if c:\n        import os\n        import sys\n        return os, sys\n    else:\n        from json import dumps\n        x = (dumps,\n1)\n        return x\n")
+c("try_import_then_multiline", "try:\n    import tomllib\n    cfg = {\n'a': 1,\n    }\nexcept ImportError:\n    cfg = None\n")
+c("async_for_hoistable", "async def collect(stream):\n    items = []\n    async for item in stream:\n        k = 10\n        items.append(item + k)\n    return items\n")
+c("async_with_open", "async def f(p):\n    fh = open(p)\n    data = fh.read()\n    fh.close()\n    async with lock:\n        return data\n")
+c("async_comprehension", "async def f(xs):\n    r = []\n    async for x in xs:\n        r.append(x * 2)\n    return [y async for y in xs if y], r\n")
+
+
 @functools.lru_cache(maxsize=None)
 def repo_examples():
     with open(os.path.join(HERE, "corpus", "repo_examples.json")) as f:
